@@ -47,7 +47,7 @@ func Main(extras func(prop string) (map[string]any, []string)) {
 				seed = uint64(v)
 			}
 		}
-		workers, budget := 12, 75
+		workers, budget := 16, 120
 		if *tier == "thorough" {
 			workers, budget = 16, 900
 		}
